@@ -62,9 +62,19 @@ func hookFor(kind string) bexpr.ValueTransformationHookFn {
 	}
 }
 
+// Options passed explicitly with their zero value: what the library does with
+// "set, but empty" is a place of its own for lazily filled defaults.
+const (
+	EmptyTag = "<empty>"
+	NilHook  = "<nil>"
+)
+
 func optionsOf(o OptSpec) []bexpr.Option {
 	var opts []bexpr.Option
-	if o.Tag != "" {
+	switch {
+	case o.Tag == EmptyTag:
+		opts = append(opts, bexpr.WithTagName("")) // the option passed with its zero value
+	case o.Tag != "":
 		opts = append(opts, bexpr.WithTagName(o.Tag))
 	}
 	switch {
@@ -77,7 +87,9 @@ func optionsOf(o OptSpec) []bexpr.Option {
 		fmt.Sscanf(o.Unknown[4:], "%d", &n)
 		opts = append(opts, bexpr.WithUnknownValue(n))
 	}
-	if h := hookFor(o.Hook); h != nil {
+	if o.Hook == NilHook {
+		opts = append(opts, bexpr.WithHookFn(nil)) // the option passed with its zero value
+	} else if h := hookFor(o.Hook); h != nil {
 		opts = append(opts, bexpr.WithHookFn(h))
 	}
 	if o.Max != 0 {
